@@ -86,6 +86,16 @@ def cases(tier, rng):
     strings.append([0x31, 0x61] * 40)
     strings.append([0x01, 0x61] * 40)
     strings.append([0x31, 0x31, 0x01, 0x61] * 20)
+    # lengths that wrap around 8/16-bit counters onto 1..80, runes whose low byte is a table character
+    import gaps
+    for n in (1, 2, 40, 79, 80):
+        for w in (256, 512, 65536):
+            strings.append([0x61] * (n + w))
+            strings.append([0x37] * (n + w))
+    for good in ("ab12", "AB\r1", "1234"):
+        for i in range(len(good)):
+            for r in gaps.low_byte_runes(good[i]):
+                strings.append([ord(c) for c in good[:i]] + [ord(r)] + [ord(c) for c in good[i + 1:]])
     nrand = 1500 if quick else 100000
     for _ in range(nrand):
         n = rng.choice([1, 2, 3, 4, 5, 6, 7, 8, 9, 10, 12, 16, 20, 40, 79, 80, rng.randrange(1, 81), rng.randrange(1, 81)])
